@@ -5,7 +5,7 @@
    that canonical form is what the correspondence run checks (families of
    construction paths per denotation). *)
 From Arrai Require Import Base.Val Spec.SetAlg Eval.Interp Proofs.ValOrder Proofs.SetAlgP Proofs.KeyedP Proofs.CanonP Proofs.WfP.
-From Arrai Require Import Rep.Builder Proofs.BuilderP Proofs.BuilderSeqP Proofs.BuilderDictP Proofs.BuilderAllP.
+From Arrai Require Import Rep.Builder Proofs.BuilderP Proofs.BuilderSeqP Proofs.BuilderDictP Proofs.BuilderAllP Proofs.BuilderBytesP Proofs.BuilderTupP.
 
 (* a = b holds exactly when both denote the same value *)
 Theorem C02_equality_is_identity_of_denotations :
@@ -139,6 +139,51 @@ Theorem C02_string_representation_is_function_of_denotation :
 Proof. exact string_representation_function_of_denotation. Qed.
 Print Assumptions C02_string_representation_is_function_of_denotation.
 
+(* the same for byte arrays: one byte per index, same denotation => the very same Bytes{b, offset} *)
+Theorem C02_bytes_representation_is_function_of_denotation :
+  forall ms ms', ms <> [] ->
+    (forall v, In v ms -> exists a c, v = RTupByte a c) ->
+    (forall v, In v ms' -> exists a c, v = RTupByte a c) ->
+    (forall a c c', In (RTupByte a c) ms -> In (RTupByte a c') ms -> c = c') ->
+    mkset (map abs ms) = mkset (map abs ms') ->
+    build ms = build ms' /\ exists r, build ms = BOk r /\ build ms' = BOk r /\ rep_equal r r = true.
+Proof. exact bytes_representation_function_of_denotation. Qed.
+Print Assumptions C02_bytes_representation_is_function_of_denotation.
+
+(* rel.NewTuple (tuple canonicalisation).  `tuple_spec attrs` is the tuple value the attributes denote (a map filled in
+   argument order, kept sorted by name).  A tuple that does not pair "@" with one of @char / @byte / @item / @value - in
+   any argument order, of any width - is built as a GenericTuple denoting exactly its attributes (the "@"-second swap and
+   the second specialisation in TupleBuilder.Finish included) ... *)
+Theorem C02_tuple_build_generic_denotes_attributes :
+  forall attrs, NoDup (map fst attrs) ->
+    ~ (In n_at (map fst attrs) /\ exists k, (k = n_char \/ k = n_byte \/ k = n_item \/ k = n_value) /\ In k (map fst attrs)) ->
+    exists m, tuple_build attrs = BOk (RTupG m) /\ abs (RTupG m) = tuple_spec attrs.
+Proof. exact tuple_build_generic. Qed.
+Print Assumptions C02_tuple_build_generic_denotes_attributes.
+
+(* ... and a well-typed (@, @char | @byte | @item | @value) pair is built, in either argument order, as the specialised
+   tuple type, which denotes the same two attributes: one representation per denotation for these tuples *)
+Theorem C02_tuple_build_sugar_specialises :
+  forall a,
+  (forall c, -2147483648 <= c < 2147483648 ->
+     let l := [(n_at, RNum (NInt a)); (n_char, RNum (NInt c))] in
+     tuple_build l = BOk (RTupChar a c) /\ tuple_build (rev l) = BOk (RTupChar a c) /\
+     abs (RTupChar a c) = tuple_spec l /\ abs (RTupChar a c) = tuple_spec (rev l)) /\
+  (forall b, 0 <= b < 256 ->
+     let l := [(n_at, RNum (NInt a)); (n_byte, RNum (NInt b))] in
+     tuple_build l = BOk (RTupByte a b) /\ tuple_build (rev l) = BOk (RTupByte a b) /\
+     abs (RTupByte a b) = tuple_spec l /\ abs (RTupByte a b) = tuple_spec (rev l)) /\
+  (forall x,
+     let l := [(n_at, RNum (NInt a)); (n_item, x)] in
+     tuple_build l = BOk (RTupItem a x) /\ tuple_build (rev l) = BOk (RTupItem a x) /\
+     abs (RTupItem a x) = tuple_spec l /\ abs (RTupItem a x) = tuple_spec (rev l)) /\
+  (forall k v,
+     let l := [(n_at, k); (n_value, v)] in
+     tuple_build l = BOk (RTupEntry k v) /\ tuple_build (rev l) = BOk (RTupEntry k v) /\
+     abs (RTupEntry k v) = tuple_spec l /\ abs (RTupEntry k v) = tuple_spec (rev l)).
+Proof. exact tuple_build_sugar. Qed.
+Print Assumptions C02_tuple_build_sugar_specialises.
+
 Theorem C02_equal_soundness_is_decidable : forall ms, equal_sound_onb ms = true -> equal_sound_on ms.
 Proof. exact equal_sound_onb_ok. Qed.
 Print Assumptions C02_equal_soundness_is_decidable.
@@ -229,3 +274,10 @@ Example C02_string_probe :
   build [RTupChar 3 99; RTupChar 1 97; RTupChar 3 99] = BOk (RStr 1 [97; -1; 99] 1) /\
   build [RTupChar 1 97; RTupChar 3 99] = BOk (RStr 1 [97; -1; 99] 1).
 Proof. split; vm_compute; reflexivity. Qed.
+
+Example C02_tuple_probe :
+  tuple_build [([98], rint 2); (n_at, rint 0); ([97], rint 1)] =
+    BOk (RTupG [(n_at, rint 0); ([97], rint 1); ([98], rint 2)]) /\
+  tuple_build [(n_char, rint 97); (n_at, rint 0)] = BOk (RTupChar 0 97) /\
+  tuple_build [(n_at, REmpty); (n_char, rint 97)] = BPanic.
+Proof. repeat split; vm_compute; reflexivity. Qed.
